@@ -66,6 +66,11 @@ def is_refusal(exc):
         tb = tb.tb_next
     filename = tb.tb_frame.f_code.co_filename
     norm = filename.replace("\\", "/")
+    if norm.endswith("/enum.py") and isinstance(exc, ValueError):
+        # Enum value lookup - Feature(x), Access(x), Trigger(x) - is the library's documented way of
+        # validating such arguments ("raises ValueError if feature is invalid"); the message names
+        # the offending value and the enumeration.
+        return True
     if "/amaranth_soc/" not in norm and "/amaranth/" not in norm:
         return False
     lineno = tb.tb_lineno
